@@ -28,6 +28,11 @@ func NewChannelMgr(cfg *Config, defaultTimeShiftBufferDepthS, defaultReceiveNrRa
 
 func (cm *ChannelMgr) AddChannel(ctx context.Context, chName, chDir string) {
 	cm.mu.Lock()
+	if _, ok := cm.channels[chName]; ok {
+		// Already added by a concurrent first upload to the same channel. Keep that channel object.
+		cm.mu.Unlock()
+		return
+	}
 
 	chCfg := ChannelConfig{
 		Name:                 chName,
